@@ -343,7 +343,7 @@ func (r *Run) Finish() {
 	r.mu.Lock()
 	defer r.mu.Unlock()
 	os.MkdirAll(r.Env.OutDir, 0o755)
-	base := filepath.Join(r.Env.OutDir, fmt.Sprintf("%s.%d", r.Property, r.Env.Shard))
+	base := filepath.Join(r.Env.OutDir, fmt.Sprintf("%s.%s.%d", r.Property, stageName(), r.Env.Shard))
 	// hashes, binary little endian
 	hs := make([]uint64, 0, len(r.hashes))
 	for h := range r.hashes {
@@ -405,10 +405,17 @@ func (r *Run) Danger(sub, signature, message string, c any) {
 	rf := ReplayFile{Property: r.Property, Sub: sub, Signature: signature, Message: message, Case: raw}
 	data, _ := json.Marshal(rf)
 	os.MkdirAll(r.Env.OutDir, 0o755)
-	os.WriteFile(filepath.Join(r.Env.OutDir, fmt.Sprintf("%s.%d.pending", r.Property, r.Env.Shard)), data, 0o644)
+	os.WriteFile(filepath.Join(r.Env.OutDir, fmt.Sprintf("%s.%s.%d.pending", r.Property, stageName(), r.Env.Shard)), data, 0o644)
 }
 
 // Safe removes the record written by Danger.
 func (r *Run) Safe() {
-	os.Remove(filepath.Join(r.Env.OutDir, fmt.Sprintf("%s.%d.pending", r.Property, r.Env.Shard)))
+	os.Remove(filepath.Join(r.Env.OutDir, fmt.Sprintf("%s.%s.%d.pending", r.Property, stageName(), r.Env.Shard)))
+}
+
+func stageName() string {
+	if s := os.Getenv("VERIF_STAGE"); s != "" {
+		return s
+	}
+	return "main"
 }
